@@ -58,6 +58,14 @@ func zzH_C16_tmux() {
 		payload = append(payload, c)
 	}
 	var stream []byte
+	// unrelated text in front of the marker may itself hold half of a status-line update: its unfinished head, or the
+	// tail of one whose head went by before this line began
+	switch verifNondetRange(0, 2) {
+	case 1:
+		stream = append(stream, "\x1bP=1s"...)
+	case 2:
+		stream = append(stream, "\x1bP=2s\x1b\\"...)
+	}
 	for i := 0; i < verifBound("JUNK"); i++ {
 		if verifNondetBool() {
 			j := verifNondetByte()
